@@ -34,7 +34,7 @@ def main():
                 print(f"{sid:8s} {prop} patch does not apply to the current tree: {p.stdout.strip()[:120]}")
                 continue
             r = subprocess.run([os.path.join(VERIF, "check"), prop, "--tier", "quick"], cwd=VERIF, capture_output=True, text=True,
-                               env=dict(os.environ, HV_REPO=target))
+                               env=dict(os.environ, HV_REPO=target, HV_EVIDENCE_DIR=os.path.join(target, "_evidence")))
             keys = sorted({l.strip()[4:] for l in r.stdout.splitlines() if l.strip().startswith("key=")})
             fired = f"VIOLATION property={prop}" in r.stdout
             import re
